@@ -65,6 +65,9 @@ func Scenarios(thorough bool) map[string]*Scenario {
 	// Deployment partition style (the repository's advanced Deployment controller drives the ReplicaSets)
 	m["Q07"] = &Scenario{ID: "Q07", Kind: "Deployment", Style: "partition", Replicas: 3,
 		Steps: []StepSpec{{Replicas: "34%"}, {Replicas: "100%"}}}
+	// Deployment partition style, the user's strategy is Recreate
+	m["Q07r"] = &Scenario{ID: "Q07r", Kind: "Deployment", Style: "partition", Replicas: 2, Recreate: true,
+		Steps: []StepSpec{{Replicas: "1"}, {Replicas: "100%"}}}
 	// Deployment partition style with a mixed plan (percentage, then absolute, then percentage)
 	m["Q07m"] = &Scenario{ID: "Q07m", Kind: "Deployment", Style: "partition", Replicas: 4,
 		Steps: []StepSpec{{Replicas: "25%"}, {Replicas: "3"}, {Replicas: "100%"}}}
@@ -113,6 +116,12 @@ func Plans(thorough bool) map[string]PropertyPlan {
 }
 
 func plans0(thorough bool) map[string]PropertyPlan {
+	// every workload kind / style and every traffic provider built into E1; the partition-style Deployment (whose
+	// advanced Deployment controller makes each transition expensive) only in the thorough tier
+	c06Scenarios := []string{"Q02", "Q01b", "Q03", "Q05", "Q08", "Q10", "Q20", "Q22", "Q30"}
+	if thorough {
+		c06Scenarios = append(c06Scenarios, "Q07", "Q01r", "Q04")
+	}
 	capQ := 120000
 	if thorough {
 		capQ = 400000
@@ -134,7 +143,7 @@ func plans0(thorough bool) map[string]PropertyPlan {
 			FreeQueues: true, StateCap: capQ, Monitors: func(w *World, sc *Scenario) []Monitor { return []Monitor{VoidMonitor{}} }},
 		"C10": {Scenarios: []string{"Q02", "Q05", "Q08"}, Actions: []string{"rollback", "release3"}, MaxUser: 1, Disturbances: []string{"crash", "midcrash"}, MaxDisturb: 1,
 			FreeQueues: true, StateCap: capQ, Monitors: func(w *World, sc *Scenario) []Monitor { return []Monitor{RollbackOrderMonitor{}} }},
-		"C05": {Scenarios: []string{"Q02", "Q01b", "Q03", "Q05", "Q08", "Q10", "Q30"}, Actions: []string{"rollback", "disable", "deleteRollout", "editPlanMore", "deleteCanary"}, MaxUser: u,
+		"C05": {Scenarios: []string{"Q02", "Q01b", "Q03", "Q05", "Q07", "Q07r", "Q08", "Q10", "Q30"}, Actions: []string{"rollback", "disable", "deleteRollout", "editPlanMore", "deleteCanary"}, MaxUser: u,
 			FreeQueues: true, StateCap: capQ, Monitors: func(w *World, sc *Scenario) []Monitor { return []Monitor{&ExitMonitor{Base: CaptureBaseline(w, sc)}} }},
 		"C18": {Scenarios: []string{"Q02", "Q01b", "Q05", "Q20", "Q22", "Q30"}, Actions: []string{"deleteRollout", "deleteWorkload", "deleteTR"}, MaxUser: 2, Disturbances: []string{"crash", "midcrash", "error"}, MaxDisturb: 1,
 			FreeQueues: true, StateCap: capQ, Monitors: func(w *World, sc *Scenario) []Monitor {
@@ -142,7 +151,7 @@ func plans0(thorough bool) map[string]PropertyPlan {
 			}},
 		"C07": {Scenarios: []string{"Q01", "Q01b", "Q01c", "Q01r", "Q02", "Q03", "Q05", "Q05r", "Q07", "Q07m", "Q08", "Q10"}, Actions: nil, MaxUser: 0,
 			FreeQueues: false, Liveness: true, StateCap: capQ, Monitors: func(w *World, sc *Scenario) []Monitor { return []Monitor{PanicMonitor{}} }},
-		"C06": {Scenarios: []string{"Q02", "Q01b", "Q08"}, Actions: nil, MaxUser: 0, Disturbances: []string{"crash", "midcrash", "error", "conflict"}, MaxDisturb: 1,
+		"C06": {Scenarios: c06Scenarios, Actions: nil, MaxUser: 0, Disturbances: []string{"crash", "midcrash", "error", "conflict"}, MaxDisturb: 1,
 			FreeQueues: true, StateCap: capQ, Relabel: true, LiveScenarios: []string{"Q01b"},
 			Monitors: func(w *World, sc *Scenario) []Monitor {
 				return []Monitor{ExposureMonitor{}, StepMonitor{}, BatchStatusMonitor{}, TrafficOrderMonitor{}, VoidMonitor{}, &ExitMonitor{Base: CaptureBaseline(w, sc)}, FinalizerMonitor{}, PanicMonitor{}, OnceMonitor{}, &DiffMonitor{S: NewDiffShared()}}
